@@ -7,6 +7,7 @@ import (
 	"sync"
 	"time"
 
+	"google.golang.org/protobuf/proto"
 	"google.golang.org/protobuf/types/known/timestamppb"
 
 	"github.com/smart-core-os/sc-api/go/traits"
@@ -57,7 +58,8 @@ func (m *Model) AddWasteRecord(wr *traits.WasteRecord, opts ...resource.WriteOpt
 	}
 	m.mu.Lock()
 	defer m.mu.Unlock()
-	m.allWasteRecords = append(m.allWasteRecords, wr)
+	// wr stays the caller's message, keep a copy
+	m.allWasteRecords = append(m.allWasteRecords, proto.Clone(wr).(*traits.WasteRecord))
 	return v.(*traits.WasteRecord), nil
 }
 
